@@ -71,7 +71,7 @@ func (r runOut) key() string {
 	return hex.EncodeToString(h[:8])
 }
 
-const stdinTree = "((a:1,b:2)0.9:1,((c:1,d:3)0.7:0.5,e:1)0.8:0.25,f:2);\n((a:1,c:2)0.9:1,((b:1,d:3)0.7:0.5,e:1)0.8:0.25,f:2);\n"
+const stdinTree = "((a:1,b:2)0.9:1,((c:1,d:3)0.3:0.5,e:1)0.65:0.25,f:2);\n((a:1,c:2)0.95:1,((b:1,d:3)0.1:0.5,e:1)0.8:0.25,f:2);\n"
 
 func runGotree(bin string, base string, args []string) runOut {
 	dir, err := os.MkdirTemp(base, "fr")
@@ -166,6 +166,29 @@ func init() {
 				mism++
 			}
 			if !skip && *bin != "" {
+				// a persistent option is exercised on the command that defines it and on every runnable command
+				// below it; an option whose cell does not hold the documented default is also exercised with each
+				// boolean option of the command switched on (its effect may depend on another option)
+				ctxs := flagContexts(r, rows)
+				same, detail := true, ""
+				for _, base := range ctxs {
+					s2, d2 := omittedVsDefault(*bin, filepath.Dir(*out), base, r)
+					if !s2 && same {
+						same, detail = false, d2
+					} else if d2 != "" && detail == "" {
+						detail = d2
+					}
+				}
+				ev["ran"] = true
+				ev["same"] = same
+				ev["detail"] = detail
+				ev["contexts"] = len(ctxs)
+				ran++
+				emit(ev)
+				n++
+				continue
+			}
+			if false {
 				base := append(strings.Fields(r.Cmd), "--seed", "1")
 				def := r.Def
 				if r.Typ == "stringSlice" || r.Typ == "intSlice" {
@@ -208,3 +231,54 @@ var reScratch = regexp.MustCompile(`/(detin|detrun|fr)[0-9]+`)
 
 // scratch directory names (random suffixes) written into log files are not output
 func maskScratch(s, base string) string { return reScratch.ReplaceAllString(s, "/<scratch>") }
+
+// the command lines on which option r is exercised
+func flagContexts(r flagRow, rows []flagRow) [][]string {
+	cmds := []string{r.Cmd}
+	if r.Kind == "persistent" {
+		seen := map[string]bool{r.Cmd: true}
+		for _, o := range rows {
+			if strings.HasPrefix(o.Cmd, r.Cmd+" ") && !seen[o.Cmd] {
+				seen[o.Cmd] = true
+				cmds = append(cmds, o.Cmd)
+			}
+		}
+	}
+	out := [][]string{}
+	for _, c := range cmds {
+		base := append(strings.Fields(c), "--seed", "1")
+		out = append(out, base)
+		if r.Cur != r.Def {
+			for _, o := range rows {
+				if o.Typ == "bool" && o.Flag != "help" && (o.Cmd == c || strings.HasPrefix(c, o.Cmd+" ") && o.Kind == "persistent") {
+					out = append(out, append(append([]string{}, base...), "--"+o.Flag+"=true"))
+				}
+			}
+		}
+	}
+	if len(out) > 40 {
+		out = out[:40]
+	}
+	return out
+}
+
+func omittedVsDefault(bin, scratch string, base []string, r flagRow) (bool, string) {
+	def := r.Def
+	if r.Typ == "stringSlice" || r.Typ == "intSlice" {
+		def = strings.Trim(def, "[]")
+	}
+	with := append(append([]string{}, base...), "--"+r.Flag+"="+def)
+	a := runGotree(bin, scratch, base)
+	b := runGotree(bin, scratch, with)
+	if a.key() == b.key() {
+		return true, ""
+	}
+	// believed only when both runs are reproducible
+	a2 := runGotree(bin, scratch, base)
+	b2 := runGotree(bin, scratch, with)
+	if a2.key() != a.key() || b2.key() != b.key() {
+		return true, "not reproducible: not judged"
+	}
+	return false, fmt.Sprintf("%v omitted: rc=%d out=%q err=%q files=%s | given %s: rc=%d out=%q err=%q files=%s",
+		base, a.rc, trunc(a.stdout), trunc(a.stderr), a.files, def, b.rc, trunc(b.stdout), trunc(b.stderr), b.files)
+}
